@@ -61,7 +61,7 @@ def run(ctx):
         for shp, raw in sorted(shapes.items(), key=lambda kv: repr(kv[0])):
             analyse(ctx, repo, ci, fb, raw, fam)
     for name, need in (("TextMessagingService", 3), ("AutomaticRegistrationService", 4)):
-        ctx.ob("shape/coverage", name, fam.get(name, 0) >= need, f"{fam.get(name, 0)} shapes analysed, {need} confirmed by hand", "")
+        ctx.coverage("shape/coverage", name, fam.get(name, 0), need, f"{fam.get(name, 0)} shapes analysed, {need} confirmed by hand", "")
     non_ascii(ctx, repo, ars)
     ctx.require("shape/roundtrip-fields", 7)
     ctx.require("frame/length-prefix", 7)
